@@ -1,6 +1,79 @@
-import RulioModel.State
+import RulioProofs.ReloadLinear
 
-/-! # C06 — durability (placeholder obligations until the reload proofs land) -/
+open AM
 
-/-- clearing a state empties memory and storage -/
-theorem clear_empties (s : St) : (s.clear).facts = [] ∧ (s.clear).store = [] := ⟨rfl, rfl⟩
+/-! # C06 — acknowledged changes are durable; reload reproduces the live location (property theorems only)
+
+Model: `RulioModel/State.lean` (both `State` implementations over a reliable storage map; storage faults and
+the Bolt back end are exercised by the dynamic part of the C06 check). Vocabulary: `RulioModel/SysInv.lean`. -/
+
+/-- **store_mirrors_facts** — for every history of `Add`/`Rem`/`Get`/`Search`/`FindRules`/`Clear` operations
+(successful or not, both state kinds, cascades and expiry-triggered removals included) started from the empty
+state: the storage map is exactly the image of the in-memory facts — for every id the stored document is the
+prepared in-memory fact — and both are finite maps with unique ids. -/
+theorem store_mirrors_facts (k : Kind) (ops : List StOp) :
+    let s := (St.empty k).runOps ops
+    (∀ id, amGet s.store id = (amGet s.facts id).map J.obj) ∧
+      (s.facts.map (·.1)).Nodup ∧ (s.store.map (·.1)).Nodup :=
+  have ok := St.runOps_storeOK ops (St.empty_storeOK k)
+  ⟨ok.mirror, ok.factsNodup, ok.storeNodup⟩
+
+/-- the invariant is inductive: one more operation on any state that satisfies it keeps it -/
+theorem store_mirrors_facts_step {s : St} (ok : StoreOK s) (op : StOp) : StoreOK (s.stepOp op).1 :=
+  St.stepOp_storeOK ok op
+
+example : StoreOK ((St.empty .indexed).runOps
+    [.add "x" [("a", .num 1), ("ttl", .num 5)] 10, .add "" [("deleteWith", .arr [.str "x"])] 11,
+     .search [("a", .str "?v")] 20, .rem "x" 21]) :=
+  St.runOps_storeOK _ (St.empty_storeOK _)
+
+/-- **reload_facts_linear** — for every state satisfying the invariant, the linear `Load` of its storage
+succeeds and yields the same facts (as a finite map), the same storage, and again a state satisfying the invariant. -/
+theorem reload_facts_linear {s : St} (ok : StoreOK s) :
+    ∃ t, St.lLoad s.store = .ok t ∧ t.kind = .linear ∧ t.store = s.store ∧
+      (∀ id, amGet t.facts id = amGet s.facts id) ∧ StoreOK t :=
+  lLoad_spec ok
+
+/-- … in particular after every history on a linear state -/
+theorem reload_facts_linear_history (ops : List StOp) :
+    ∃ t, ((St.empty .linear).runOps ops).reload 0 = .ok t ∧
+      ∀ id, amGet t.facts id = amGet ((St.empty .linear).runOps ops).facts id := by
+  have ok := St.runOps_storeOK ops (St.empty_storeOK .linear)
+  obtain ⟨t, ht, _, _, hf, _⟩ := lLoad_spec ok
+  have hk : ((St.empty .linear).runOps ops).kind = .linear := St.runOps_kind ops _
+  refine ⟨{ t with fresh := ((St.empty .linear).runOps ops).fresh }, ?_, hf⟩
+  unfold St.reload
+  rw [hk]
+  simp only [ht, Except.map]
+
+/-- **ack_durable (add)** — an acknowledged `Add` is in storage: the returned id maps to the prepared fact now
+held in memory. -/
+theorem ack_durable_add {s s' : St} {given : String} {x : Obj} {now : Int} {id : String}
+    (h : s.add given x now = (s', .ok id)) :
+    ∃ fact, amGet s'.facts id = some fact ∧ amGet s'.store id = some (.obj fact) :=
+  St.add_ack h
+
+/-- **ack_durable (rem)** — after an acknowledged `Rem id` (on a state whose storage mirrors its facts) the id is
+gone from memory and from storage. -/
+theorem ack_durable_rem {s s' : St} (hm : Mirror s) {id : String} {now : Int} {b : Bool}
+    (h : s.rem id now = (s', .ok b)) : amGet s'.facts id = none ∧ amGet s'.store id = none :=
+  St.rem_ack hm h
+
+/-- **failed_add_no_write** — an `Add` that reports an error has written nothing: facts and storage are unchanged. -/
+theorem failed_add_no_write {s s' : St} {given : String} {x : Obj} {now : Int} {e : LErr}
+    (h : s.add given x now = (s', .error e)) : s'.facts = s.facts ∧ s'.store = s.store :=
+  have sp := St.add_spec h
+  ⟨sp.1, sp.2.1⟩
+
+/-- **rem_only_removes_partial** — whatever `Rem` returns (also on failure half-way through a cascade), every id
+is either untouched in memory and storage, or gone from both; nothing is ever written or altered.
+(Full statement — "only the named id and its `deleteWith` dependents are touched, for every crash point between
+two storage writes" — is left to the dynamic check, which stops histories after k storage writes.) -/
+theorem rem_only_removes_partial (s : St) (id : String) (now : Int) (k : String) :
+    let s' := (s.rem id now).1
+    (amGet s'.facts k = amGet s.facts k ∧ amGet s'.store k = amGet s.store k) ∨
+      (amGet s'.facts k = none ∧ amGet s'.store k = none) :=
+  (St.rem_shrinks s id now).2.2.2.2 k
+
+example : isOk ((St.empty .indexed).add "" [("a", .num 1)] 5).2 = true := by decide +kernel
+example : isOk ((((St.empty .linear).add "x" [("a", .num 1)] 5).1.rem "x" 6).2) = true := by decide +kernel
